@@ -6,7 +6,7 @@ cd /repo || exit 2
 if ! git diff --quiet; then echo "/repo has uncommitted changes"; exit 2; fi
 if ! git apply --check "$patch" 2>/dev/null; then
   echo "patch does not apply cleanly, trying 3-way"; 
-  if ! git apply -3 "$patch"; then echo "PATCH FAILED"; git checkout -- .; exit 2; fi
+  if ! git apply -3 "$patch"; then echo "PATCH FAILED"; git reset -q --hard HEAD; exit 2; fi
   git reset -q
 else
   git apply "$patch"
